@@ -151,6 +151,54 @@ UNIT = dict(
             dict(rule='R5', lit='self.compute_hash(password, user_validation_salt, None)? == hashed_user_password', to='slice_eq_vec(&self.compute_hash(password, user_validation_salt, None)?, hashed_user_password)', count=1, note='Vec<u8> == &[u8] comparison shim'),
             dict(rule='R5', lit='self.validate_permissions(&user_encrypted)', to='self.validate_permissions(user_encrypted.as_slice())', optional=True, note='&Vec<u8> as &[u8]'),
         ])),
+        dict(file=A, impl='PasswordAlgorithm', name='compute_hashed_user_password_r6', props=['C06'], rules=dict(no_sink=True, raw_sig=True, pre_subst=[
+            dict(rule='R11', pat=r'fn compute_hashed_user_password_r6<K, U>\(\s*&self,\s*file_encryption_key: K,\s*user_password: U,\s*\) -> Result<\(Vec<u8>, Vec<u8>\), DecryptionError>\s*where\s*K: AsRef<\[u8\]>,\s*U: AsRef<\[u8\]>,\s*\{', to='fn compute_hashed_user_password_r6(&self, file_encryption_key: &[u8], user_password: &[u8]) -> (r: core::result::Result<(Vec<u8>, Vec<u8>), DecryptionError>)\n    {', count=1, note='AsRef<[u8]> at &[u8]; result named'),
+            dict(rule='R11', lit='let file_encryption_key = file_encryption_key.as_ref();', to='', count=1, note='AsRef<[u8]> at &[u8]'),
+            dict(rule='R11', lit='let mut user_password = user_password.as_ref();', to='let mut user_password = user_password;', count=1, note='AsRef<[u8]> at &[u8]'),
+            dict(rule='R5', lit='user_password = &user_password[..127];', to='user_password = prefix(user_password, 127);', count=1, note='sub-slice shim'),
+            dict(rule='R5', pat=r'let mut rng = rand::rng\(\);\s*rng\.fill\(&mut user_value\[(\d+)\.\.\]\);', to=r'fill_random48_from(&mut user_value, \1);', count=1, note='rand: the bytes from 32 on become arbitrary (shim)'),
+            dict(rule='R5', pat=r'&([\w.]+)\[(\d+)\.\.\]\[\.\.(\d+)\]', to=r'subslice(\1.as_slice(), \2, \3)', note='&v[a..][..n] sub-slice shim'),
+            dict(rule='R5', pat=r'user_value\[\.\.(\d+)\]\.copy_from_slice\(&(\w+)\);', to=r'copy_into48(&mut user_value, 0, \1, \2.as_slice());', count=1, note='sub-slice copy_from_slice shim'),
+            dict(rule='R10', pat=r'let mut key = \[0u8; 32\];\s*key\.copy_from_slice\(&hash\);\s*let iv = \[0u8; 16\];\s*let mut (\w+) = file_encryption_key\.to_vec\(\);\s*let mut encryptor = Aes256CbcEnc::new\(&key\.into\(\), &iv\.into\(\)\);\s*for block in \w+\.chunks_exact_mut\(16\) \{\s*encryptor\.encrypt_block_mut\(block\.into\(\)\);\s*\}', to=r'let \1 = aes256_cbc_zero_iv_encrypt(&hash, file_encryption_key);', count=1, note='RustCrypto block-mode idiom (32-byte key copied from the hash, zero IV, every 16-byte block encrypted in place) as one call of an uninterpreted AES-256-CBC-no-padding encryption'),
+        ], subst=[
+            dict(rule='R5', pat=r'let mut input = Vec::with_capacity\([^;]*\);', to='let mut input: Vec<u8> = Vec::new();', optional=True, note='capacity hint dropped (not observable)'),
+            dict(rule='R5', lit='Some(&self.user_value)', to='Some(self.user_value.as_slice())', optional=True, note='&Vec<u8> as &[u8]'),
+            dict(rule='R5', pat=r'Ok\(\((\w+)_value\.to_vec\(\), (\w+)\)\)', to=r'Ok((\1_value.as_slice().to_vec(), \2))', count=1, note='array to_vec through the slice'),
+        ])),
+        dict(file=A, impl='PasswordAlgorithm', name='compute_hashed_owner_password_r6', props=['C06'], rules=dict(no_sink=True, raw_sig=True, pre_subst=[
+            dict(rule='R11', pat=r'fn compute_hashed_owner_password_r6<K, O>\(\s*&self,\s*file_encryption_key: K,\s*owner_password: O,\s*\) -> Result<\(Vec<u8>, Vec<u8>\), DecryptionError>\s*where\s*K: AsRef<\[u8\]>,\s*O: AsRef<\[u8\]>,\s*\{', to='fn compute_hashed_owner_password_r6(&self, file_encryption_key: &[u8], owner_password: &[u8]) -> (r: core::result::Result<(Vec<u8>, Vec<u8>), DecryptionError>)\n    {', count=1, note='AsRef<[u8]> at &[u8]; result named'),
+            dict(rule='R11', lit='let file_encryption_key = file_encryption_key.as_ref();', to='', count=1, note='AsRef<[u8]> at &[u8]'),
+            dict(rule='R11', lit='let mut owner_password = owner_password.as_ref();', to='let mut owner_password = owner_password;', count=1, note='AsRef<[u8]> at &[u8]'),
+            dict(rule='R5', lit='owner_password = &owner_password[..127];', to='owner_password = prefix(owner_password, 127);', count=1, note='sub-slice shim'),
+            dict(rule='R5', pat=r'let mut rng = rand::rng\(\);\s*rng\.fill\(&mut owner_value\[(\d+)\.\.\]\);', to=r'fill_random48_from(&mut owner_value, \1);', count=1, note='rand: the bytes from 32 on become arbitrary (shim)'),
+            dict(rule='R5', pat=r'&([\w.]+)\[(\d+)\.\.\]\[\.\.(\d+)\]', to=r'subslice(\1.as_slice(), \2, \3)', note='&v[a..][..n] sub-slice shim'),
+            dict(rule='R5', pat=r'owner_value\[\.\.(\d+)\]\.copy_from_slice\(&(\w+)\);', to=r'copy_into48(&mut owner_value, 0, \1, \2.as_slice());', count=1, note='sub-slice copy_from_slice shim'),
+            dict(rule='R10', pat=r'let mut key = \[0u8; 32\];\s*key\.copy_from_slice\(&hash\);\s*let iv = \[0u8; 16\];\s*let mut (\w+) = file_encryption_key\.to_vec\(\);\s*let mut encryptor = Aes256CbcEnc::new\(&key\.into\(\), &iv\.into\(\)\);\s*for block in \w+\.chunks_exact_mut\(16\) \{\s*encryptor\.encrypt_block_mut\(block\.into\(\)\);\s*\}', to=r'let \1 = aes256_cbc_zero_iv_encrypt(&hash, file_encryption_key);', count=1, note='RustCrypto block-mode idiom (32-byte key copied from the hash, zero IV, every 16-byte block encrypted in place) as one call of an uninterpreted AES-256-CBC-no-padding encryption'),
+        ], subst=[
+            dict(rule='R5', pat=r'let mut input = Vec::with_capacity\([^;]*\);', to='let mut input: Vec<u8> = Vec::new();', optional=True, note='capacity hint dropped (not observable)'),
+            dict(rule='R5', lit='Some(&self.user_value)', to='Some(self.user_value.as_slice())', optional=True, note='&Vec<u8> as &[u8]'),
+            dict(rule='R5', pat=r'Ok\(\((\w+)_value\.to_vec\(\), (\w+)\)\)', to=r'Ok((\1_value.as_slice().to_vec(), \2))', count=1, note='array to_vec through the slice'),
+        ])),
+        dict(file=A, impl='PasswordAlgorithm', name='compute_permissions', props=['C06'], rules=dict(no_sink=True, raw_sig=True, pre_subst=[
+            dict(rule='R11', pat=r'fn compute_permissions<K>\(\s*&self,\s*file_encryption_key: K,\s*\) -> Result<Vec<u8>, DecryptionError>\s*where\s*K: AsRef<\[u8\]>,\s*\{', to='fn compute_permissions(&self, file_encryption_key: &[u8]) -> (r: core::result::Result<Vec<u8>, DecryptionError>)\n    {', count=1, note='AsRef<[u8]> at &[u8]; result named'),
+            dict(rule='R11', lit='let file_encryption_key = file_encryption_key.as_ref();', to='', count=1, note='AsRef<[u8]> at &[u8]'),
+            dict(rule='R5', pat=r'bytes\[\.\.8\]\.copy_from_slice\(&u64::to_le_bytes\(([^;]+?)\)\);', to=r'copy_into16(&mut bytes, 0, 8, (\1).le_bytes().as_slice());', count=1, note='sub-slice copy_from_slice shim; to_le_bytes: IntBytes shim'),
+            dict(rule='R5', pat=r'bytes\[(\d+)\.\.\]\[\.\.(\d+)\]\.copy_from_slice\(([^;]+?)\);', to=r'copy_into16(&mut bytes, \1, \2, \3);', count=1, note='sub-slice copy_from_slice shim'),
+            dict(rule='R5', pat=r'let mut rng = rand::rng\(\);\s*rng\.fill\(&mut bytes\[(\d+)\.\.\]\[\.\.(\d+)\]\);', to=r'fill_random16(&mut bytes, \1, \2);', count=1, note='rand: the named bytes become arbitrary (shim)'),
+            dict(rule='R10', pat=r'let mut key = \[0u8; 32\];\s*key\.copy_from_slice\(file_encryption_key\);(\s*//[^\n]*\n)*\s*Aes256EbcEnc::new\(&key\.into\(\)\)\s*\.encrypt_block_mut\(\(&mut bytes\)\.into\(\)\);', to='aes256_ecb_encrypt_block(file_encryption_key, &mut bytes);', optional=True, note='RustCrypto idiom (32-byte key copied from the slice, one block encrypted in place) as one call of an uninterpreted AES-256-ECB block encryption; `bytes.into()` instead of `(&mut bytes).into()` no longer matches and loses the anchor'),
+            dict(rule='R10', pat=r'let mut key = \[0u8; 32\];\s*key\.copy_from_slice\(file_encryption_key\);(\s*//[^\n]*\n)*\s*Aes256EbcEnc::new\(&key\.into\(\)\)\s*\.encrypt_block_mut\(bytes\.into\(\)\);', to='aes256_ecb_encrypt_copy(file_encryption_key, &bytes);', optional=True, note='the same idiom with `bytes.into()`: a temporary copy of the array is encrypted, the array keeps its value (shim without effect on its argument)'),
+        ], subst=[
+            dict(rule='R5', lit='Ok(bytes.to_vec())', to='Ok(bytes.as_slice().to_vec())', count=1, note='array to_vec through the slice'),
+        ])),
+        dict(file=A, impl='PasswordAlgorithm', name='validate_permissions', props=['C06'], rules=dict(no_sink=True, raw_sig=True, pre_subst=[
+            dict(rule='R11', pat=r'fn validate_permissions<K>\(\s*&self,\s*file_encryption_key: K,\s*\) -> Result<\(\), DecryptionError>\s*where\s*K: AsRef<\[u8\]>,\s*\{', to='fn validate_permissions(&self, file_encryption_key: &[u8]) -> (r: core::result::Result<(), DecryptionError>)\n    {', count=1, note='AsRef<[u8]> at &[u8]; result named'),
+            dict(rule='R11', lit='let file_encryption_key = file_encryption_key.as_ref();', to='', count=1, note='AsRef<[u8]> at &[u8]'),
+            dict(rule='R5', lit='bytes.copy_from_slice(&self.permission_encrypted);', to='copy_all16(&mut bytes, self.permission_encrypted.as_slice());', count=1, note='copy_from_slice shim (panics unless the lengths agree: precondition)'),
+            dict(rule='R10', pat=r'let mut key = \[0u8; 32\];\s*key\.copy_from_slice\(file_encryption_key\);(\s*//[^\n]*\n)*\s*Aes256EbcDec::new\(&key\.into\(\)\)\s*\.decrypt_block_mut\(\(&mut bytes\)\.into\(\)\);', to='aes256_ecb_decrypt_block(file_encryption_key, &mut bytes);', optional=True, note='RustCrypto idiom as one call of an uninterpreted AES-256-ECB block decryption'),
+            dict(rule='R10', pat=r'let mut key = \[0u8; 32\];\s*key\.copy_from_slice\(file_encryption_key\);(\s*//[^\n]*\n)*\s*Aes256EbcDec::new\(&key\.into\(\)\)\s*\.decrypt_block_mut\(bytes\.into\(\)\);', to='aes256_ecb_decrypt_copy(file_encryption_key, &bytes);', optional=True, note='the same idiom with `bytes.into()`: a temporary copy of the array is decrypted, the array keeps its value (shim without effect on its argument)'),
+            dict(rule='R5', pat=r'if &bytes\[(\d+)\.\.\]\[\.\.(\d+)\] != ([^{]+?) \{', to=r'if slice_ne(subslice(bytes.as_slice(), \1, \2), \3) {', count=1, note='sub-slice comparison shim'),
+            dict(rule='R5', pat=r'if bytes\[\.\.4\] != u64::to_le_bytes\(([^;{]+?)\)\[\.\.4\] \{', to=r'if slice_ne(prefix(bytes.as_slice(), 4), prefix((\1).le_bytes().as_slice(), 4)) {', count=1, note='sub-slice comparison shim; to_le_bytes: IntBytes shim'),
+        ], subst=[])),
         dict(file=E, impl='Permissions', name='p_value', rules=dict(no_sink=True)),
     ],
 )
